@@ -33,8 +33,18 @@ def ensure_dirs():
 
 
 # --------------------------------------------------------------------------- repo hash / cache
+_repo_hash = []
+
+
 def repo_hash():
-    """Content hash of the implementation's sources (cache key for recorded corpora)."""
+    """Content hash of the implementation's sources (cache key for recorded corpora); taken once per
+    process, so that a run keeps one cache directory even if files are edited while it runs."""
+    if not _repo_hash:
+        _repo_hash.append(_compute_repo_hash())
+    return _repo_hash[0]
+
+
+def _compute_repo_hash():
     h = hashlib.sha256()
     for root, dirs, files in os.walk(REPO):
         dirs[:] = sorted(d for d in dirs if d not in ("target", ".git", "output"))
@@ -66,7 +76,21 @@ def prune_cache(keep=5):
     ds.sort(key=lambda p: os.path.getmtime(p), reverse=True)
     import shutil
     for p in ds[keep:]:
-        shutil.rmtree(p, ignore_errors=True)
+        if not _in_use(p):
+            shutil.rmtree(p, ignore_errors=True)
+
+
+def _in_use(p):
+    """A cache directory is in use while a process that registered itself in it is alive."""
+    for f in os.listdir(p):
+        if f.startswith(".pid_"):
+            if os.path.exists("/proc/%s" % f[5:]):
+                return True
+            try:
+                os.remove(os.path.join(p, f))
+            except OSError:
+                pass
+    return False
 
 
 _pruned = [False]
@@ -76,8 +100,12 @@ def cache_dir(*parts):
     if not _pruned[0]:
         _pruned[0] = True
         prune_cache()
-    d = os.path.join(WORK, "cache", repo_hash(), *[str(p) for p in parts])
+    top = os.path.join(WORK, "cache", repo_hash())
+    d = os.path.join(top, *[str(p) for p in parts])
     os.makedirs(d, exist_ok=True)
+    mark = os.path.join(top, ".pid_%d" % os.getpid())
+    if not os.path.exists(mark):
+        open(mark, "w").close()
     return d
 
 
